@@ -100,7 +100,7 @@ func runC20(c *Ctx) {
 						nDraw++
 						recv := ci.Common().Args[0]
 						okRecv := false
-						if u, ok := recv.(*ssa.UnOp); ok && fieldOf(u.X) != nil && fieldOf(u.X).Name() == "r" {
+						if u, ok := recv.(*ssa.UnOp); ok && fieldOf(u.X) != nil && vname(fieldOf(u.X)) == "r" {
 							okRecv = true
 						}
 						c.Check(okRecv, "C20.seeded", fnName(f), "draw "+Expr(recv)+"."+cal.Name(), P.Pos(ci.Pos()), "receiver must be the generator's own seeded *rand.Rand")
@@ -351,7 +351,7 @@ func runC20(c *Ctx) {
 			at := &Atoms{Class: func(e *PPA, st *State, rv RV) string {
 				r := e.Resolve(st, rv)
 				if u, ok := r.V.(*ssa.UnOp); ok && u.Op == token.MUL {
-					if fl := fieldOf(u.X); fl != nil && fl.Name() == "v" && isNamed(fl.Type(), "testing/fake/proto", "Value") {
+					if fl := fieldOf(u.X); fl != nil && vname(fl) == "v" && isNamed(fl.Type(), "testing/fake/proto", "Value") {
 						return "ALIVE"
 					}
 				}
